@@ -1,10 +1,12 @@
 import SaModel.Lemmas.C01Shape
+import SaModel.Lemmas.C01Small
 /-
 R2, non-recursive part: the row a scalar call / a null appends is the row the specification (`Spec.interpScalar`,
 `Spec.interpNull`) assigns.
 -/
 namespace SaModel.Build
 open SaModel SaModel.Spec
+open SaModel.Lemmas.C03 (ViewSmall ViewSmallL)
 
 theorem row_unique {xs : List LVal} {ys : List LVal} {a b : LVal} (h1 : ys = xs ++ [a]) (h2 : ys = xs ++ [b]) : a = b := by
   rw [h1] at h2
@@ -44,7 +46,14 @@ theorem pushNone_interp : ∀ (b b' : B) (dt : DataType) (n : Bool) (md : Metada
     subst hn
     obtain ⟨rfl, _⟩ := hs
     cases ty <;> rfl
-  | .bytesView _ _ _ _ _, _, _, _, _, hs, _ => by simp [Shape] at hs
+  | .bytesView _ ty v _ _, b', dt, n, md, hs, h => by
+    simp only [pushNone, ctx_ok] at h
+    obtain ⟨v', h1, _⟩ := (bind_ok _ _ _).1 h
+    simp only [Shape] at hs
+    have hn : n = true := by rw [← hs.2]; exact isSome_of_setValidity_false' h1
+    subst hn
+    obtain ⟨rfl, _⟩ := hs
+    cases ty <;> rfl
   | .fixedSizeBinary _ _ _ v _ _, b', dt, n, md, hs, h => by
     simp only [pushNone, ctx_ok] at h
     obtain ⟨v', h1, _⟩ := (bind_ok _ _ _).1 h
@@ -85,14 +94,93 @@ theorem pushNone_interp : ∀ (b b' : B) (dt : DataType) (n : Bool) (md : Metada
     subst hn
     obtain ⟨_, sfs, rfl, _⟩ := hs
     rfl
-  | .dictionary _ _ _ _, _, _, _, _, hs, _ => by simp [Shape] at hs
+  | .dictionary _ idx vals _, b', dt, n, md, hs, h => by
+    simp only [pushNone, ctx_ok] at h
+    obtain ⟨idx', h1, _⟩ := (bind_ok _ _ _).1 h
+    simp only [Shape] at hs
+    obtain ⟨⟨kdt, vdt, rfl⟩, hint, hnl, _⟩ := hs
+    cases idx with
+    | leaf p k v vals' =>
+      simp only [pushNone, ctx_ok] at h1
+      obtain ⟨v', h2, _⟩ := (bind_ok _ _ _).1 h1
+      have hv : v.isSome = true := isSome_of_setValidity_false' h2
+      have hn : n = true := by rw [← hnl]; simpa [B.isNullable] using hv
+      subst hn; rfl
+    | _ => simp [B.isIntLeaf] at hint
   | .union _ _ _ _ _, _, _, _, _, _, h => by simp [pushNone, ctx_ok, fail] at h
 
-/-- the row a scalar call appends is the specified one -/
+/-- the `u64` index a dictionary pushes into its (integer leaf) key builder shows up as exactly that key -/
+theorem intLeaf_push (ext : Ext) {idx idx' : B} {i : Nat} (hil : idx.isIntLeaf = true) (hw : WFB idx)
+    (h : pushScalar ext idx (.int .u64 i) = .ok idx') : dec idx' = dec idx ++ [.int i] := by
+  cases idx with
+  | leaf p k v vals =>
+    cases k with
+    | int t =>
+      simp only [pushScalar] at h
+      obtain ⟨val, hc, h2⟩ := (bind_ok _ _ _).1 h
+      obtain ⟨v', h3, h4⟩ := (bind_ok _ _ _).1 h2
+      cases h4
+      have hv : VLen v vals.length := by simpa [WFB] using hw
+      obtain ⟨rfl, _⟩ := setValidity_ok hv h3
+      obtain ⟨_, g2⟩ := leaf_step hw true val
+      rw [rowOf_true] at g2
+      simp only [convLeaf] at hc
+      have := tryInto_ok hc
+      subst this
+      rw [g2]; rfl
+    | _ => simp [B.isIntLeaf] at hil
+  | _ => simp [B.isIntLeaf] at hil
+
+theorem last_of_append_eq {xs ys : List LVal} {a b : LVal} (h : xs ++ [a] = ys ++ [b]) (hl : xs.length = ys.length) :
+    a = b := by
+  have := (List.append_inj h hl).2
+  simpa using this
+
+/-- the row a string-like scalar appends to a `Dictionary(integer, Utf8/LargeUtf8)` builder is that string:
+`values[index[s]] = s` (invariant `DictVals`) and the pushed key is `index[s]` -/
+theorem dict_push_row (ext : Ext) {p : String} {idx vals : B} {index : List String} {x : SVal} {b' : B} {lv : LVal}
+    (hwf : WFB (.dictionary p idx vals index)) (hil : idx.isIntLeaf = true) (hu : vals.isUtf8B = true)
+    (h : pushScalar ext (.dictionary p idx vals index) x = .ok b')
+    (hd : dec b' = dec (.dictionary p idx vals index) ++ [lv]) :
+    ∃ s, scalarToString ext x = some s ∧ lv = .str (strBytes s) := by
+  unfold pushScalar at h
+  simp only at h
+  have hw' := hwf
+  simp only [WFB] at hw'
+  have hdv := hw'.2.2.2.2.2 hu
+  split at h
+  · rename_i s hs'
+    refine ⟨s, hs', ?_⟩
+    split at h
+    · rename_i i hi
+      obtain ⟨idx', h1, h2⟩ := (bind_ok _ _ _).1 h
+      cases h2
+      have hk := intLeaf_push ext hil hw'.1 h1
+      rw [dec_dictionary, dec_dictionary, hk, List.map_append] at hd
+      have := last_of_append_eq hd (by simp)
+      rw [← this]
+      have hget := SaModel.Props.C11Front.indexOfName_some index s i hi
+      simp only [dictRow, Int.toNat_natCast, hdv, List.getD_eq_getElem?_getD, List.getElem?_map, hget]
+      rfl
+    · obtain ⟨vals', h1, h2⟩ := (bind_ok _ _ _).1 h
+      obtain ⟨idx', h3, h4⟩ := (bind_ok _ _ _).1 h2
+      cases h4
+      have hk := intLeaf_push ext hil hw'.1 h3
+      have hv := pushScalar_utf8_str ext hw'.2.1 hu h1
+      rw [dec_dictionary, dec_dictionary, hk, List.map_append] at hd
+      have := last_of_append_eq hd (by simp)
+      rw [← this, hv]
+      have hl : (dec vals).length = index.length := hw'.2.2.2.1
+      simp only [dictRow, Int.toNat_natCast, List.getD_eq_getElem?_getD, ← hl, List.getElem?_append_right (Nat.le_refl _),
+        Nat.sub_self]
+      rfl
+  · simp [notSupported, fail] at h
+
+/-- the row a scalar call appends is the specified one (`ViewSmall b'`: only looked at by bytes-view builders) -/
 theorem pushScalar_interp (ext : Ext) : ∀ (b : B) (x : SVal) (b' : B) (dt : DataType) (n : Bool) (md : Metadata) (lv : LVal),
-    WFB b → Shape b dt n md → pushScalar ext b x = .ok b' → dec b' = dec b ++ [lv] →
+    WFB b → Shape b dt n md → pushScalar ext b x = .ok b' → dec b' = dec b ++ [lv] → ViewSmall b' →
     interpScalar ext dt x = .ok lv ∧ isUnknownVariant dt md = false
-  | .null p len, x, b', dt, n, md, lv, _, hs, h, hd => by
+  | .null p len, x, b', dt, n, md, lv, _, hs, h, hd, _ => by
     simp only [Shape] at hs
     obtain ⟨rfl, h2⟩ := hs
     unfold pushScalar at h
@@ -102,8 +190,8 @@ theorem pushScalar_interp (ext : Ext) : ∀ (b : B) (x : SVal) (b' : B) (dt : Da
       subst this
       exact ⟨by simp [interpScalar], h2⟩
     · simp [notSupported, fail] at h
-  | .unknownVariant p, x, b', _, _, _, _, _, _, h, _ => by simp [pushScalar, fail] at h
-  | .leaf p k v vals, x, b', dt, n, md, lv, hwf, hs, h, hd => by
+  | .unknownVariant p, x, b', _, _, _, _, _, _, h, _, _ => by simp [pushScalar, fail] at h
+  | .leaf p k v vals, x, b', dt, n, md, lv, hwf, hs, h, hd, _ => by
     simp only [Shape] at hs
     simp only [pushScalar] at h
     obtain ⟨val, hc, h2⟩ := (bind_ok _ _ _).1 h
@@ -117,7 +205,7 @@ theorem pushScalar_interp (ext : Ext) : ∀ (b : B) (x : SVal) (b' : B) (dt : Da
     subst this
     refine ⟨?_, kindOf_not_unknown hs.1 md⟩
     rw [interpScalar_kind hs.1, hc]; rfl
-  | .bytes p ty v offs data, x, b', dt, n, md, lv, hwf, hs, h, hd => by
+  | .bytes p ty v offs data, x, b', dt, n, md, lv, hwf, hs, h, hd, _ => by
     simp only [Shape] at hs
     obtain ⟨rfl, _⟩ := hs
     simp only [pushScalar] at h
@@ -139,8 +227,33 @@ theorem pushScalar_interp (ext : Ext) : ∀ (b : B) (x : SVal) (b' : B) (dt : Da
     cases ty <;> simp only [isUtf8Ty, if_true, Bool.false_eq_true, if_false] at hval <;>
       simp only [bytesDT, interpScalar, bytesVal, isUtf8Ty, isUnknownVariant, and_true] <;>
       (split at hval <;> first | (cases hval; simp_all) | simp [notSupported, fail] at hval)
-  | .bytesView _ _ _ _ _, _, _, _, _, _, _, _, hs, _, _ => by simp [Shape] at hs
-  | .fixedSizeBinary p k len v buf cur, x, b', dt, n, md, lv, hwf, hs, h, hd => by
+  | .bytesView p ty v views buf, x, b', dt, n, md, lv, hwf, hs, h, hd, hsm => by
+    simp only [Shape] at hs
+    obtain ⟨rfl, _⟩ := hs
+    simp only [pushScalar] at h
+    obtain ⟨bs, hval, h2⟩ := (bind_ok _ _ _).1 h
+    obtain ⟨vp, hp, h2⟩ := (bind_ok _ _ _).1 h2
+    obtain ⟨v', h3, h4⟩ := (bind_ok _ _ _).1 h2
+    have hv : VLen v views.length := by simp only [WFB] at hwf; exact hwf.1
+    obtain ⟨rfl, _⟩ := setValidity_ok hv h3
+    obtain ⟨d, extra, rfl, hok, hex⟩ := viewPushValue_exact hp
+    cases h4
+    have := row_unique hd (view_push_row hwf bs hok hex hsm)
+    subst this
+    cases ty
+    · have e : (ViewTy.utf8View == ViewTy.utf8View) = true := by decide
+      rw [if_pos e] at hval
+      simp only [viewDT, interpScalar, bytesVal, isUnknownVariant, and_true, e, if_true]
+      split at hval
+      · rename_i heq; cases hval; rw [heq]
+      · simp [notSupported, fail] at hval
+    · have e : (ViewTy.binaryView == ViewTy.utf8View) = false := by decide
+      rw [if_neg (by rw [e]; decide)] at hval
+      simp only [viewDT, interpScalar, bytesVal, isUnknownVariant, and_true, e, Bool.false_eq_true, if_false]
+      split at hval
+      · cases hval; rfl
+      · simp [notSupported, fail] at hval
+  | .fixedSizeBinary p k len v buf cur, x, b', dt, n, md, lv, hwf, hs, h, hd, _ => by
     simp only [Shape] at hs
     obtain ⟨rfl, _⟩ := hs
     unfold pushScalar at h
@@ -159,11 +272,15 @@ theorem pushScalar_interp (ext : Ext) : ∀ (b : B) (x : SVal) (b' : B) (dt : Da
         subst this
         simp [interpScalar, hn', isUnknownVariant]
     · simp [notSupported, fail] at h
-  | .dictionary _ _ _ _, _, _, _, _, _, _, _, hs, _, _ => by simp [Shape] at hs
-  | .list _ _ _ _ _ _, x, b', _, _, _, _, _, _, h, _ => by simp [pushScalar, notSupported, fail] at h
-  | .fixedSizeList _ _ _ _ _ _ _, x, b', _, _, _, _, _, _, h, _ => by simp [pushScalar, notSupported, fail] at h
-  | .map _ _ _ _ _ _, x, b', _, _, _, _, _, _, h, _ => by simp [pushScalar, notSupported, fail] at h
-  | .struct _ _ _ _ _ _ _, x, b', _, _, _, _, _, _, h, _ => by simp [pushScalar, notSupported, fail] at h
-  | .union _ _ _ _ _, x, b', _, _, _, _, _, _, h, _ => by simp [pushScalar, notSupported, fail] at h
+  | .dictionary p idx vals index, x, b', dt, n, md, lv, hwf, hs, h, hd, _ => by
+    simp only [Shape] at hs
+    obtain ⟨⟨kdt, vdt, rfl⟩, hil, _, hu⟩ := hs
+    obtain ⟨s, hs', rfl⟩ := dict_push_row ext hwf hil hu h hd
+    exact ⟨by simp only [interpScalar, hs'], rfl⟩
+  | .list _ _ _ _ _ _, x, b', _, _, _, _, _, _, h, _, _ => by simp [pushScalar, notSupported, fail] at h
+  | .fixedSizeList _ _ _ _ _ _ _, x, b', _, _, _, _, _, _, h, _, _ => by simp [pushScalar, notSupported, fail] at h
+  | .map _ _ _ _ _ _, x, b', _, _, _, _, _, _, h, _, _ => by simp [pushScalar, notSupported, fail] at h
+  | .struct _ _ _ _ _ _ _, x, b', _, _, _, _, _, _, h, _, _ => by simp [pushScalar, notSupported, fail] at h
+  | .union _ _ _ _ _, x, b', _, _, _, _, _, _, h, _, _ => by simp [pushScalar, notSupported, fail] at h
 
 end SaModel.Build
